@@ -79,8 +79,10 @@ def declaration(name, s):
     body = concrete(s, ['a%d' % i for i in range(n)])
     return ('#ifndef DECL_%s\n#define DECL_%s\n#if defined(WB_NATIVE) || defined(WB_CONCRETE_FP)\n'
             'static inline double %s(%s) { return %s; }\n#else\n'
-            'double __CPROVER_uninterpreted_%s(%s);\n#define %s __CPROVER_uninterpreted_%s\n#endif\n#endif\n'
-            % (name, name, name, ', '.join(params), body, name, ', '.join(['double'] * n) or 'void', name, name))
+            'double __CPROVER_uninterpreted_%s(%s);\n'
+            'static inline double %s(%s) { double r_ = __CPROVER_uninterpreted_%s(%s); return r_ != r_ ? WB_QNAN : r_; }\n#endif\n#endif\n'
+            % (name, name, name, ', '.join(params), body, name, ', '.join(['double'] * n) or 'void',
+               name, ', '.join(params), name, ', '.join('a%d' % i for i in range(n))))
 
 
 # ------------------------------------------------------------------ spec-side parser
